@@ -287,6 +287,12 @@ def build_matrices(job):
     if job.get("x64", True):
         jax.config.update("jax_enable_x64", True)
     problem = make_problem(job["problem"])
+    # earlier calls on the SAME problem object (their outcome is not the one measured): the method takes its tolerance per call
+    for t in job.get("pre_tols", []):
+        try:
+            problem.build_transition_and_reward_matrices(normalization_tolerance=t)
+        except ValueError:
+            pass
     try:
         if "tol" in job:
             P, R = problem.build_transition_and_reward_matrices(normalization_tolerance=job["tol"])
